@@ -11,7 +11,8 @@ tier = "quick"
 for i, a in enumerate(sys.argv):
     if a == "--checks": checks = [] if sys.argv[i + 1] == "none" else sys.argv[i + 1].split(",")
     if a == "--tier": tier = sys.argv[i + 1]
-base = f"/tmp/seed/{pid}"
+rdir = "/tmp/seed2" if "--round2" in sys.argv else "/tmp/seed"
+base = f"{rdir}/{pid}"
 wt = f"{base}/repo"
 diff = f"{base}/out/change{n}.diff"
 env = dict(os.environ, CARGO_NET_OFFLINE="true", RUST_BACKTRACE="0")
@@ -59,4 +60,4 @@ finally:
         rc3, _ = run("cargo run --offline --quiet >/dev/null 2>&1", cwd=f"{base}/out/demo{n}", timeout=1800)
         res["demo_without_change"] = {"exit": rc3, "tail": out.strip()[-300:]}
 print(json.dumps(res, indent=1))
-open("/tmp/seed/results.jsonl", "a").write(json.dumps(res) + "\n")
+open(f"{rdir}/results.jsonl", "a").write(json.dumps(res) + "\n")
